@@ -62,8 +62,161 @@ def gen_radiation(repo, out):
                      t.render(HEADER.format(extra=" GenSpecies"), "GenRadiation"))
 
 
-TARGETS = {"species": gen_species, "radiation": gen_radiation}
-FILES = {"species": "GenSpecies.v", "radiation": "GenRadiation.v", "mixture": "GenMixture.v", "transport": "GenTransport.v"}
+import ast  # noqa: E402
+
+
+def coq_str(x):
+    return '"' + x + '"'
+
+
+def coq_list(xs):
+    return "[" + "; ".join(xs) + "]"
+
+
+def gen_speciesio(repo, out):
+    """Structural summary of the species constructors, to_file and from_file (for C16): parameter lists,
+    attribute-assignment lists, super().__init__ argument lists, from_file key lists and dispatch.  Fail-closed."""
+    path = os.path.join(repo, "src/minplascalc/species.py")
+    tree = ast.parse(open(path).read())
+
+    def fail(node, what):
+        raise Unsupported("species.py", node, what)
+
+    classes = {n.name: n for n in tree.body if isinstance(n, ast.ClassDef)}
+    funcs = {n.name: n for n in tree.body if isinstance(n, ast.FunctionDef)}
+
+    def init_summary(cls):
+        c = classes.get(cls) or fail(tree, f"class {cls} missing")
+        init = next((n for n in c.body if isinstance(n, ast.FunctionDef) and n.name == "__init__"), None) or fail(c, "no __init__")
+        a = init.args
+        if a.vararg or a.kwarg or a.kwonlyargs or a.defaults or a.posonlyargs:
+            fail(init, "constructor with defaults / *args / **kwargs")
+        params = [x.arg for x in a.args][1:]
+        assigns, super_args = [], None
+        for st in init.body:
+            if Translator.is_doc(st):
+                continue
+            if isinstance(st, ast.AnnAssign) and st.value is None:
+                continue
+            if isinstance(st, ast.Expr) and isinstance(st.value, ast.Call):
+                f = st.value.func
+                if isinstance(f, ast.Attribute) and f.attr == "__init__" and isinstance(f.value, ast.Call) and \
+                        isinstance(f.value.func, ast.Name) and f.value.func.id == "super" and not st.value.keywords:
+                    if super_args is not None or assigns:
+                        fail(st, "super().__init__ must be the first effect")
+                    args = st.value.args
+                    if not all(isinstance(x, ast.Name) for x in args):
+                        fail(st, "super().__init__ argument that is not a plain name")
+                    super_args = [x.id for x in args]
+                    continue
+            if isinstance(st, ast.Assign) and len(st.targets) == 1:
+                t, v = st.targets[0], st.value
+                if isinstance(t, ast.Attribute) and isinstance(t.value, ast.Name) and t.value.id == "self":
+                    if isinstance(v, ast.Call) and isinstance(v.func, ast.Name) and v.func.id == "deepcopy" and len(v.args) == 1:
+                        v = v.args[0]
+                    if isinstance(v, ast.Name) and v.id in params:
+                        assigns.append((t.attr, v.id))
+                        continue
+            fail(st, "constructor statement outside the accepted forms (self.a = p | self.a = deepcopy(p) | super().__init__(p..))")
+        return params, super_args, assigns
+
+    out_lines = ["(* GENERATED by /verif/translator (gen_speciesio) — structural summary of species.py constructors and I/O. *)",
+                 "From Coq Require Import List String ZArith.", "Import ListNotations.", "Open Scope string_scope.", ""]
+    bp, bs, ba = init_summary("Species")
+    if bs is not None:
+        fail(classes["Species"], "Species.__init__ calls super().__init__")
+    out_lines.append(f"Definition base_params : list string := {coq_list(map(coq_str, bp))}.")
+    out_lines.append("Definition base_assigns : list (string * string) := " + coq_list(f"({coq_str(a)}, {coq_str(p)})" for a, p in ba) + ".")
+    for cls, pre in (("Monatomic", "mono"), ("Diatomic", "di"), ("Polyatomic", "poly")):
+        bases = [b.id for b in classes[cls].bases if isinstance(b, ast.Name)]
+        if bases != ["Species"]:
+            fail(classes[cls], f"{cls} does not derive from Species only")
+        p, sa, asg = init_summary(cls)
+        if sa is None:
+            fail(classes[cls], f"{cls}.__init__ does not call super().__init__")
+        out_lines.append(f"Definition {pre}_params : list string := {coq_list(map(coq_str, p))}.")
+        out_lines.append(f"Definition {pre}_super_args : list string := {coq_list(map(coq_str, sa))}.")
+        out_lines.append(f"Definition {pre}_assigns : list (string * string) := " + coq_list(f"({coq_str(a)}, {coq_str(q)})" for a, q in asg) + ".")
+    # to_file: json.dump(self.__dict__, f, ...) in every branch
+    tf = next((n for n in classes["Species"].body if isinstance(n, ast.FunctionDef) and n.name == "to_file"), None) or fail(tree, "to_file missing")
+    dumps = [n for n in ast.walk(tf) if isinstance(n, ast.Call) and isinstance(n.func, ast.Attribute) and n.func.attr == "dump"]
+    if not dumps:
+        fail(tf, "to_file does not call json.dump")
+    for d in dumps:
+        a0 = d.args[0] if d.args else None
+        if not (isinstance(a0, ast.Attribute) and a0.attr == "__dict__" and isinstance(a0.value, ast.Name) and a0.value.id == "self"):
+            fail(d, "to_file dumps something other than self.__dict__")
+        for kw in d.keywords:
+            if kw.arg not in ("indent",):
+                fail(d, f"json.dump keyword {kw.arg}")
+    # from_file: json.load; number_atoms = sum(species_data["stoichiometry"].values()); if/elif/else returning constructor calls
+    ff = funcs.get("from_file") or fail(tree, "from_file missing")
+    body = [st for st in ff.body if not Translator.is_doc(st)]
+    if not (len(body) == 3 and isinstance(body[0], ast.With) and isinstance(body[1], ast.Assign) and isinstance(body[2], ast.If)):
+        fail(ff, "from_file is not `with open: load; number_atoms = ...; if/elif/else`")
+    w = body[0]
+    loads = [n for n in ast.walk(w) if isinstance(n, ast.Call) and isinstance(n.func, ast.Attribute) and n.func.attr == "load"]
+    if len(loads) != 1 or len(w.body) != 1 or not isinstance(w.body[0], ast.Assign):
+        fail(w, "from_file does not json.load once")
+    dvar = w.body[0].targets[0].id
+    na = body[1]
+    want = f"sum({dvar}['stoichiometry'].values())"
+    if ast.unparse(na.value) != want:
+        fail(na, f"atom count is {ast.unparse(na.value)}, expected {want}")
+    navar = na.targets[0].id
+    dispatch, default = [], None
+
+    def ctor_call(stmts):
+        if len(stmts) != 1 or not isinstance(stmts[0], ast.Return) or not isinstance(stmts[0].value, ast.Call):
+            fail(stmts[0], "from_file branch is not `return Class(...)`")
+        c = stmts[0].value
+        if c.keywords or not isinstance(c.func, ast.Name):
+            fail(c, "constructor call with keywords")
+        keys = []
+        for a in c.args:
+            if not (isinstance(a, ast.Subscript) and isinstance(a.value, ast.Name) and a.value.id == dvar and
+                    isinstance(a.slice, ast.Constant) and isinstance(a.slice.value, str)):
+                fail(a, "constructor argument that is not species_data[<key>]")
+            keys.append(a.slice.value)
+        return c.func.id, keys
+
+    node = body[2]
+    branch_keys = {}
+    while True:
+        t = node.test
+        if not (isinstance(t, ast.Compare) and isinstance(t.left, ast.Name) and t.left.id == navar and len(t.ops) == 1 and
+                isinstance(t.ops[0], ast.Eq) and isinstance(t.comparators[0], ast.Constant) and isinstance(t.comparators[0].value, int)):
+            fail(t, "dispatch test is not `number_atoms == <int>`")
+        cls, keys = ctor_call(node.body)
+        dispatch.append((t.comparators[0].value, cls))
+        branch_keys[cls] = keys
+        if len(node.orelse) == 1 and isinstance(node.orelse[0], ast.If):
+            node = node.orelse[0]
+            continue
+        cls, keys = ctor_call(node.orelse)
+        default = cls
+        branch_keys[cls] = keys
+        break
+    for cls, pre in (("Monatomic", "mono"), ("Diatomic", "di"), ("Polyatomic", "poly")):
+        if cls not in branch_keys:
+            fail(ff, f"from_file never constructs {cls}")
+        out_lines.append(f"Definition {pre}_keys : list string := {coq_list(map(coq_str, branch_keys[cls]))}.")
+    out_lines.append("Definition dispatch_table : list (Z * string) := " + coq_list(f"({n}%Z, {coq_str(c)})" for n, c in dispatch) + ".")
+    out_lines.append(f"Definition dispatch_default : string := {coq_str(default)}.")
+    # from_name: from_file(str(SPECIES_PATH / (name + ".json")))
+    fn = funcs.get("from_name") or fail(tree, "from_name missing")
+    rets = [n for n in ast.walk(fn) if isinstance(n, ast.Return)]
+    if len(rets) != 1 or ast.unparse(rets[0].value) != "from_file(str(filename))":
+        fail(fn, "from_name does not return from_file(str(filename))")
+    fa = [n for n in fn.body if isinstance(n, ast.Assign)]
+    if len(fa) != 1 or ast.unparse(fa[0].value) != "SPECIES_PATH / (name + '.json')":
+        fail(fn, "from_name path is not SPECIES_PATH / (name + '.json')")
+    out_lines.append("Definition from_name_is_from_file_of_database_path : bool := true.")
+    write_if_changed(os.path.join(out, "GenSpeciesIO.v"), "\n".join(out_lines) + "\n")
+
+
+TARGETS = {"species": gen_species, "radiation": gen_radiation, "speciesio": gen_speciesio}
+FILES = {"speciesio": "GenSpeciesIO.v", "species": "GenSpecies.v", "radiation": "GenRadiation.v", "mixture": "GenMixture.v", "transport": "GenTransport.v"}
 
 if __name__ == "__main__":
     repo, out = sys.argv[1], sys.argv[2]
